@@ -70,7 +70,7 @@ def fam_mss(rng, i):
 
 
 def fam_ws(rng, i):
-    ws = [0, 1, 4, 7, 9, 14, 15, 2, 12][i % 9]
+    ws = [15, 14, 0, 1, 7, 4, 9, 2, 12][i % 9]          # (the out-of-range 15 and the limit 14 first: the quick tier draws about six)
     field = rng.choice([1, 2, 5, 40])
     while field > 1 and (field << min(ws, 14)) > 40000:
         field //= 2
@@ -78,8 +78,13 @@ def fam_ws(rng, i):
     mss = rng.choice([536, 1460, 300])
     # a small SYN-ACK window: it is never scaled, whatever the option says
     total = min(3 * wnd + 1000, 40000) if wnd >= 500 else max(60, 30 * wnd)      # a tiny window: a few dozen round trips, not thousands
+    ackev = rng.choice([1, 2]) if wnd >= 500 else 1
+    if i % 9 < 2 or (wnd >= 8000 and rng.random() < 0.5):
+        # one ACK per flight: only then does the sender's own idea of the window, not the peer's promptness, bound what is outstanding
+        ackev, mss = 64, 1460
+        total = min(3 * wnd + 1000, 100000) if wnd >= 500 else total          # three flights of slow start (14600, 29200, 58400) pass any window <= 40000
     return mk(rng, 'ws%d-s%d-f%d' % (i, ws, field), total, passive=(i % 4 == 3), mss=mss, ws=ws, wnd=wnd,
-              synwnd=rng.choice([600, 1000, 2000, 4000]), ts=rng.random() < 0.5, fixed_edge=rng.random() < 0.4, ack_every=rng.choice([1, 2]) if wnd >= 500 else 1)
+              synwnd=rng.choice([600, 1000, 2000, 4000]), ts=rng.random() < 0.5, fixed_edge=rng.random() < 0.4, ack_every=ackev)
 
 
 def fam_smallwnd(rng, i):
@@ -163,6 +168,8 @@ def fam_partial(rng, i):
     quiet = i % 3 == 2           # no duplicate ACKs afterwards: the remainder can only come back by timeout
     return mk(rng, 'partial%d-seg%d-keep%d%s' % (i, x, keep, '-quiet' if quiet else ''), rng.choice([12, 18]) * mss, mss=mss, quiet_ooo=quiet,
               sackperm=rng.random() < 0.5, sack=rng.choice(['', 'valid']), ts=rng.random() < 0.4, wnd=30000, synwnd=30000,
+              # (with stretch ACKs the mid-segment ACK also covers whole segments that were not acknowledged one by one)
+              ack_every=[1, 3, 4, 5][i % 4], delack_ms=400,
               rules=[dict(on='data', n=x, do='partial', bytes=keep)])
 
 
@@ -304,7 +311,8 @@ def regress_partial(k):
     rng = random.Random(2700 + k)
     mss, seg, keep, quiet = [(400, 5, 1, False), (400, 3, 399, False), (200, 7, 100, True), (300, 1, 7, False), (536, 9, 535, True), (100, 2, 50, False)][k % 6]
     sc = mk(rng, 'f27-partial-ack-%d-mss%d-seg%d-keep%d%s' % (k, mss, seg, keep, '-quiet' if quiet else ''), 18 * mss, stack_sack=(k % 2 == 0), mss=mss,
-            quiet_ooo=quiet, wnd=30000, synwnd=30000, rules=[dict(on='data', n=seg, do='partial', bytes=keep), dict(on='up', do='write', bytes=60)])
+            quiet_ooo=quiet, wnd=30000, synwnd=30000, ack_every=[1, 4][(k // 6) % 2] if k < 6 else 4, delack_ms=400,
+            rules=[dict(on='data', n=seg, do='partial', bytes=keep), dict(on='up', do='write', bytes=60)])
     sc['seed'] = 2700 + k
     sc['family'] = 'regress-f27'
     return sc
@@ -471,7 +479,7 @@ def raw_peer(ctx, props, n_quick, n_thorough):
     ctx.sample(dict(kind='rawpeer-scenario', scenario=scs[0]))
     if 'C05' in props:
         # regression for fixed finding F27, judged with the C01 clauses (the bytes on the wire) as well as the C05 ones
-        regs = [regress_partial(k) for k in range(ctx.pick(4, 6))]
+        regs = [regress_partial(k) for k in range(ctx.pick(4, 6))] + [regress_partial(6 + k) for k in range(ctx.pick(3, 6))]
         rsegs, rstats, rrep = tcplib.run_pair(ctx, drv, regs, ['C01', 'C05'], name + '-f27', what='mid-segment ACK (regression of fixed finding F27, clauses C01+C05)',
                                               classify=tcplib.classify_all, kind='rawpeer', judge_unfinished=True)
         hit = 0
